@@ -42,7 +42,9 @@ func genC04(t *rapid.T) *Case {
 		c.Kind = "ugc-safety"
 	}
 	so := &soupOpts{els: wholeHTMLVocabulary, attrs: hostileAttrNames, maxFrags: 16}
-	switch rapid.IntRange(0, 5).Draw(t, "inputKind") {
+	switch rapid.IntRange(0, 6).Draw(t, "inputKind") {
+	case 6:
+		c.Input = BStr(genCorpusMutation(t))
 	case 0:
 		c.Input = BStr(genTree(t, ugcModel, &treeOpts{extraEls: wholeHTMLVocabulary}))
 	case 1:
@@ -281,7 +283,9 @@ func genC20(t *rapid.T) *Case {
 		c.Ints = []int{dropped}
 	}
 	m := BuildModel(c.Spec)
-	switch rapid.IntRange(0, 5).Draw(t, "inputKind") {
+	switch rapid.IntRange(0, 6).Draw(t, "inputKind") {
+	case 6:
+		c.Input = BStr(genCorpusMutation(t))
 	case 0:
 		c.Input = BStr(rapid.SliceOfN(rapid.Byte(), 0, 150).Draw(t, "bytes"))
 	case 1:
